@@ -83,3 +83,35 @@ func TestES5Pattern(t *testing.T) {
 		}
 	}
 }
+
+func TestBadEscape(t *testing.T) {
+	for _, ok := range []string{`"a\x41b"`, `'A'`, `"\\x"`, `"\\\x41"`, `"x u"`, `""`} {
+		if bad := BadHexEscape(ok); bad != "" {
+			t.Errorf("BadHexEscape(%s) = %q", ok, bad)
+		}
+	}
+	for _, no := range []string{`"\x+1"`, `"\x4"`, `'\u+041'`, `"\u004"`, `"\\\xg1"`, `"\x"`, `"a\u12 4"`} {
+		if bad := BadHexEscape(no); bad == "" {
+			t.Errorf("BadHexEscape(%s) finds nothing", no)
+		}
+	}
+	seen := map[string]bool{}
+	for seed := 0; seed < 5000; seed++ {
+		toks, what := BadEscape(seed)
+		found := false
+		for _, tk := range toks {
+			if strings.Contains(tk.Text, "\\x") || strings.Contains(tk.Text, "\\u") {
+				if BadHexEscape("\""+strings.Trim(tk.Text, "\"'")+"\"") != "" || tk.Kind != 0 {
+					found = true
+				}
+			}
+		}
+		if !found {
+			t.Fatalf("seed %d: no malformed escape in %s", seed, what)
+		}
+		seen[strings.SplitN(what, ": ", 2)[0]] = true
+	}
+	if len(seen) != 6*len(nonHex) {
+		t.Errorf("only %d distinct (kind, character, position) combinations", len(seen))
+	}
+}
